@@ -900,7 +900,7 @@ pub struct CharacterClassRegistry { _private: () }
         RawFile('../u_mode/mode_spec.rs'),
         Struct(F_FMI, 'FindMatchesImpl', derive=[]),
         Enum(F_FM, 'PeekResult'),
-        Struct(F_POS, 'Position', derive=[]),
+        Struct(F_POS, 'Position', derive=['Clone', 'Copy']),
         RawFile('../u_iter/iter_spec.rs'),
     ] + VALUE_FNS + CONTRACTS + [
         merge_line_offsets,
